@@ -10,6 +10,7 @@ package main
 import (
 	"flag"
 	"fmt"
+	"net/url"
 	"os"
 	"sort"
 	"strings"
@@ -28,8 +29,11 @@ var (
 	scale    = flag.Int("scale", 1, "multiply generated case counts (search mode uses 10)")
 	nomodel  = flag.Bool("nomodel", false, "property oracle on the implementation only (search mode / driver unavailable)")
 	hints    = flag.String("hints", "", "file of protocol lines that disagreed; their inputs are pushed through the oracle first")
-	triage   = flag.Bool("triage", false, "development aid: print every unclassified deviation grouped by shape")
 )
+
+// development aid (not a flag, so that the command line stays that of cmd/c01): C12_TRIAGE=1 prints
+// every unclassified deviation grouped by the classes that hold on it instead of failing
+var triage = func() *bool { b := os.Getenv("C12_TRIAGE") != ""; return &b }()
 
 // ---------------------------------------------------------------- implementation side
 
@@ -70,6 +74,39 @@ func goResolvePath(base, ref string) (res string) {
 		}
 	}()
 	return vh.XS(iri.VerifResolvePath(base, ref))
+}
+
+// wrapper: the parts of ParseIRI / String that are modelled (Model.IRI.reclassify, forceFragment,
+// stringFix), exercised with the real net/url supplying what the model takes as parameters.
+func (g *run) wrapper(s string, p *iri.ParsedIRI) {
+	if u0, err := url.Parse(s); err == nil && p != nil {
+		pu := p.URL()
+		force, opq := iri.VerifFlags(p)
+		line := fmt.Sprintf("iri.reclass %s %s %s %s %s %s", vh.XS(u0.Scheme), vh.XS(u0.Opaque), vh.XS(u0.Host), vh.XS(u0.Path), vh.XS(u0.RawPath), vh.XS(s))
+		g.add("reclass", line, strings.Join([]string{vh.XS(pu.Opaque), vh.XS(pu.Path), vh.XS(pu.RawPath), vh.B01(opq), vh.B01(force)}, ","), s, "", opq)
+	}
+	if p != nil {
+		g.stringOp(p)
+	}
+}
+
+func (g *run) stringOp(p *iri.ParsedIRI) {
+	u := p.URL()
+	force, _ := iri.VerifFlags(p)
+	line := fmt.Sprintf("iri.string %s %s %s %s %s %s", vh.XS(u.String()), vh.XS(u.EscapedPath()), vh.XS(u.RawPath), vh.XS(u.EscapedFragment()), vh.XS(u.RawFragment), vh.B01(force))
+	g.add("string", line, vh.XS(p.String()), "", "", u.RawPath != "" || u.RawFragment != "" || force)
+}
+
+func (g *run) classesOp(isParse bool, a, b string) {
+	k, op := "r", "iri.resolve"
+	if isParse {
+		k, op = "p", "iri.parse"
+	}
+	want := strings.Join(classify(op, a, b), ",")
+	if want == "" {
+		want = "-"
+	}
+	g.add("classes", "iri.classes "+k+" "+vh.XS(a)+" "+vh.XS(b), want, a, b, want != "-")
 }
 
 // ---------------------------------------------------------------- run state
@@ -155,7 +192,12 @@ func (g *run) oracleResolve(base, ref string) string {
 }
 
 func (g *run) add(kind, line, goR, a, b string, nontrivial bool) {
-	g.items = append(g.items, item{line: line, goR: goR, kind: kind, a: a, b: b})
+	if len(g.items) >= 1500000 {
+		g.flush()
+	}
+	if !*nomodel {
+		g.items = append(g.items, item{line: line, goR: goR, kind: kind, a: a, b: b})
+	}
 	g.rep.Eval(line, nontrivial)
 	g.rep.Count("op:" + kind)
 }
@@ -166,11 +208,27 @@ func (g *run) pair(base, ref string) {
 	nontrivial := !rp.hasScheme && (strings.Contains(ref, ".") || strings.Contains(ref, "/") || ref == "" || rp.hasQuery || rp.hasFragment)
 	g.add("resolve", "iri.resolve "+vh.XS(base)+" "+vh.XS(ref), got, base, ref, nontrivial)
 	g.shape(base, ref)
+	g.classesOp(false, base, ref)
+	func() {
+		defer func() { recover() }()
+		if b, err := iri.ParseIRI(base); err == nil {
+			if t, err := b.Parse(ref); err == nil {
+				g.stringOp(t)
+			}
+		}
+	}()
 }
 
 func (g *run) single(s string) {
 	got := g.oracleParse(s)
 	g.add("parse", "iri.parse "+vh.XS(s), got, s, "", true)
+	g.classesOp(true, s, "")
+	func() {
+		defer func() { recover() }()
+		if p, err := iri.ParseIRI(s); err == nil {
+			g.wrapper(s, p)
+		}
+	}()
 }
 
 func (g *run) shape(base, ref string) {
@@ -307,6 +365,49 @@ func (g *run) exhaustive(maxBase, maxRef int) {
 	g.rep.Exhaustive = append(g.rep.Exhaustive, fmt.Sprintf("resolvePath and resolve: all base paths of <= %d and references of <= %d components over {\"\", \".\", \"..\", \"a\", \"%%2e\"} (%d path pairs)", maxBase, maxRef, cnt))
 }
 
+// flush runs the model on the pending operation lines and compares (T3); bounded memory.
+func (g *run) flush() {
+	if *nomodel || len(g.items) == 0 {
+		g.items = g.items[:0]
+		return
+	}
+	rep := g.rep
+	lines := make([]string, len(g.items))
+	for i, it := range g.items {
+		lines[i] = it.line
+	}
+	res, err := vh.Driver{Path: *driver}.RunParallel(lines)
+	if err != nil {
+		fmt.Fprintln(os.Stderr, err)
+		os.Exit(2)
+	}
+	for i, it := range g.items {
+		rep.Compared++
+		if res[i] == it.goR {
+			continue
+		}
+		switch it.kind {
+		case "parse", "resolve":
+			// The driver ran Spec.RFC3986 — the property's own definition. On inputs inside the grammar the Go
+			// oracle has already reported (or classified) the deviation of the implementation; here the two
+			// independent renderings of the RFC (Lean spec, rfc3986.go) must agree with each other on every
+			// input, valid or not — otherwise the oracle itself is in doubt.
+			var want string
+			if it.kind == "parse" {
+				want = vh.XS(it.a)
+			} else {
+				want = vh.XS(rfcResolve(it.a, it.b))
+			}
+			if res[i] != want {
+				rep.Add(vh.Case{Kind: "disagreement", Op: it.line, Go: want, Model: res[i], Detail: "Spec.RFC3986 (Lean) and rfc3986.go (harness oracle) disagree"})
+			}
+		default:
+			rep.Add(vh.Case{Kind: "disagreement", Op: it.line, Go: it.goR, Model: res[i], Detail: it.kind})
+		}
+	}
+	g.items = g.items[:0]
+}
+
 // ---------------------------------------------------------------- main
 
 func main() {
@@ -355,8 +456,7 @@ func main() {
 			g.single(w[0])
 			g.single(w[1])
 		}
-		wrapperCases(g, corpus)
-		n := 30000 * *scale
+		n := 150000 * *scale
 		if *tier == "thorough" {
 			n = 1500000 * *scale
 			g.exhaustive(4, 4)
@@ -401,37 +501,6 @@ func main() {
 		finish(" (oracle only)")
 	}
 
-	lines := make([]string, len(g.items))
-	for i, it := range g.items {
-		lines[i] = it.line
-	}
-	res, err := vh.Driver{Path: *driver}.RunParallel(lines)
-	if err != nil {
-		fmt.Fprintln(os.Stderr, err)
-		os.Exit(2)
-	}
-	for i, it := range g.items {
-		rep.Compared++
-		if res[i] == it.goR {
-			continue
-		}
-		switch it.kind {
-		case "parse", "resolve":
-			// The driver ran Spec.RFC3986 — the property's own definition. On inputs inside the grammar the Go
-			// oracle above has already reported (or classified) the deviation; here we additionally require the
-			// two independent renderings of the RFC (Lean spec, rfc3986.go) to agree with each other.
-			var want string
-			if it.kind == "parse" {
-				want = vh.XS(it.a)
-			} else {
-				want = vh.XS(rfcResolve(it.a, it.b))
-			}
-			if res[i] != want {
-				rep.Add(vh.Case{Kind: "disagreement", Op: it.line, Go: want, Model: res[i], Detail: "Spec.RFC3986 (Lean) and rfc3986.go (harness oracle) disagree"})
-			}
-		default:
-			rep.Add(vh.Case{Kind: "disagreement", Op: it.line, Go: it.goR, Model: res[i], Detail: it.kind})
-		}
-	}
+	g.flush()
 	finish("")
 }
